@@ -76,9 +76,24 @@ func VerifC18Dial() {
 	d := &vDialer{wire: w, fail: fail}
 	vInstallDialer(d)
 	cfg := NewConfig("me")
-	cfg.Server, cfg.SSL, cfg.Proxy = server, ssl, "vtest://proxy"
+	cfg.Proxy = "vtest://proxy"
 	cfg.PingFreq = 0
+	// the address and the SSL switch may be set before the client is built or - as the
+	// documentation of Connect says - on its Config() afterwards
+	late := vLen("late", 0, 2)
+	if late < 2 {
+		cfg.Server = server
+	}
+	if late < 1 {
+		cfg.SSL = ssl
+	}
 	conn := Client(cfg)
+	if late >= 1 {
+		conn.Config().SSL = ssl
+	}
+	if late >= 2 {
+		conn.Config().Server = server
+	}
 	registers, others := 0, 0
 	conn.HandleFunc(REGISTER, func(*Conn, *Line) { registers++ })
 	conn.HandleFunc(CONNECTED, func(*Conn, *Line) { others++ })
